@@ -186,6 +186,19 @@ CLAIMED['C05'] = (
     'line shapes are recording stubs; sqrt as root variable; the beam points along +z (flow velocities symbolic); '
     'cdivision by the neutral charge 0 keeps z3 total division (its value is multiplied by 0).',
     'DESIGN.md §4 C05', TECH)
+CLAIMED['C04'] = (
+    'SingleRayAttenuator (translated, with conversion.py from source) is executed for a 1 m beam with 4 / 5 (9 thorough) axis '
+    'nodes, energy, power, sigma, divergences, beam translation, species density / temperature / velocity profiles '
+    '(uninterpreted functions of position) and non-negative stopping coefficients symbolic: z3 proves the axis line density at '
+    'every node equals P/(E m e)/v exp(-trapz(S)/v) with the documented composite stopping coefficient and interaction '
+    'energies, is the same at every node without stopping (any divergence), never increases for S >= 0, that the density is '
+    'line density times the bivariate normal with sigma(z)^2 = sigma0^2 + (z tan(div))^2, and the clamp. Beam.density is zero '
+    'before the source and beyond the length; Beam.direction is a unit vector whose streamlines keep x/sigma_x(z), '
+    'y/sigma_y(z) constant.',
+    'cumulative_trapezoid and the linear Interpolator1DArray are exact models; cross-section integral of the normal pdf = 1 is a '
+    'stated lemma (so flux(z) = line density); beam placement by translation only; CODATA constants taken from scipy as the '
+    'package does.',
+    'DESIGN.md §4 C04', TECH)
 NOT_YET = {}
 props = [json.loads(l) for l in open(os.path.join(HERE, 'properties.jsonl'))]
 checks, na = [], []
